@@ -229,6 +229,22 @@ def lookup_workload(res, ctx, rng, arities):
                 res.count(f'lookups_per_window_{n}')
 
 
+def identical_lookups(res, ctx, rng, arities):
+    """The same path looked up twice in one window (rename(x, x), link(x, x), a retried lookup): the records of the two
+    lookups are byte for byte identical - same vnode id, same text and, on a coarse time base, the same timestamp.
+    They are still two lookups, in lookup order."""
+    for name in sorted(n for n, a in arities.items() if a and a >= 2 and n not in ('BSC_symlinkat', 'BSC_posix_spawn')):
+        for text in (b'/tmp/a', ascii_text(40, 3), ascii_text(184, 5), straddling_text(60, 24)):
+            for step in (0, 7):
+                vn = rng.choice((0x5511, 0xffffff8012345678))
+                seq = H.gen_syscall(rng, name, H.lookup(vn, text) + H.lookup(vn, text))
+                events = H.materialize(H.on_thread(7, seq), step=step)
+                check_lookup_history(res, events, [(text.decode(), vn)] * 2,
+                                     f'{name} with two byte-identical lookups ({len(text)}B, {"one tick" if step == 0 else "distinct ticks"})',
+                                     enclosing=name, arity=arities[name])
+                res.count('identical_lookup_windows')
+
+
 # ---------------------------------------------------------------------------------------------
 # global strings and thread names
 # ---------------------------------------------------------------------------------------------
@@ -401,6 +417,8 @@ def run(ctx):
         res.inconclusive.append(f'only {len(arities)} path-taking decoders discovered')
         arities = {n: None for n in H.ONE_PATH_CALLS + H.TWO_PATH_CALLS + H.NO_GUARD_CALLS}
     lookup_workload(res, ctx, rng, arities)
+    if ctx.shard == 0:
+        identical_lookups(res, ctx, rng, arities)
     string_workload(res, ctx, rng)
     reuse_workload(res, ctx, rng)
     if ctx.shard == 0:
@@ -415,6 +433,7 @@ def run(ctx):
     res.require('enclosing_calls_compared', 10)
     res.require('reuse_rounds', 10)
     res.require('lookup_histories_through_a_dump', 10)
+    res.require('identical_lookup_windows', 8)
     res.require('lookups_with_boundary_vnode_id', 10)
     return res
 
